@@ -385,6 +385,7 @@ void do_strto(Toks& in, Out& impl, Out& ref, EtlF etlf, LibF libf)
     run_impl(impl, [&](Out& o) {
         char const* e = nullptr;
         R v           = etlf(t.p, &e, base);
+        o.tok("v");
         val(o, v);
         o.num(e - t.p);
     });
@@ -392,6 +393,7 @@ void do_strto(Toks& in, Out& impl, Out& ref, EtlF etlf, LibF libf)
         char* e = nullptr;
         errno   = 0;
         R v     = libf(t.p, &e, base);
+        ref.tok("v");
         val(ref, v);
         ref.num(e - t.p);
     }
@@ -406,6 +408,7 @@ void do_sto(Toks& in, Out& impl, Out& ref, EtlF etlf, StdF stdf)
     run_impl(impl, [&](Out& o) {
         etl::size_t pos = 99;
         R v             = etlf(etl::string_view{t.p, t.n}, &pos, base);
+        o.tok("v");
         val(o, v);
         o.num(static_cast<i64>(pos));
     });
@@ -414,6 +417,7 @@ void do_sto(Toks& in, Out& impl, Out& ref, EtlF etlf, StdF stdf)
             std::size_t pos = 99;
             R v             = stdf(std::string(t.p, t.n), &pos, base);
             Out r;
+            r.tok("v");
             val(r, v);
             r.num(static_cast<i64>(pos));
             ref = r;
@@ -428,12 +432,16 @@ void do_ato(Toks& in, Out& impl, Out& ref, EtlF etlf, LibF strto)
 {
     auto codes = in.list();
     Text t(codes, true);
-    run_impl(impl, [&](Out& o) { val(o, etlf(t.p)); });
+    run_impl(impl, [&](Out& o) {
+        o.tok("v");
+        val(o, etlf(t.p));
+    });
     // C: ato*(s) == (R)strto*(s, NULL, 10) when representable, otherwise undefined
     errno  = 0;
     auto v = strto(t.p, nullptr, 10);
     if (errno == 0 && v >= static_cast<decltype(v)>(std::numeric_limits<R>::min())
         && v <= static_cast<decltype(v)>(std::numeric_limits<R>::max())) {
+        ref.tok("v");
         val(ref, static_cast<R>(v));
     }
 }
